@@ -363,6 +363,42 @@ static const uint8_t R[64] = {
   2, 2, 2, 2, 2, 2, 2, 2, 3, 3, 4, 2, 1, 1, 2, 0,
 };
 
+/* Lowest and highest intermediate value (biased by 3, like R[]) that the code
+   length takes while the delta codes of a pattern are applied one by one.
+   Every intermediate length must stay within the valid range, not only the
+   final one: a path like 1 -> 0 -> 1 or 20 -> 21 -> 20 is a data error.
+
+   Pattern RMIN RMAX
+   0xxxxx    0    0
+   100xxx    0   +1
+   10100x    0   +2
+   101010    0   +3
+   101011    0   +2
+   10110x    0   +1
+   101110    0   +1
+   101111   -1   +1
+   110xxx   -1    0
+   11100x   -1    0
+   111010   -1   +1
+   111011   -1    0
+   11110x   -2    0
+   111110   -2    0
+   111111   -3    0
+*/
+static const uint8_t RMIN[64] = {
+  3, 3, 3, 3, 3, 3, 3, 3, 3, 3, 3, 3, 3, 3, 3, 3,
+  3, 3, 3, 3, 3, 3, 3, 3, 3, 3, 3, 3, 3, 3, 3, 3,
+  3, 3, 3, 3, 3, 3, 3, 3, 3, 3, 3, 3, 3, 3, 3, 2,
+  2, 2, 2, 2, 2, 2, 2, 2, 2, 2, 2, 2, 1, 1, 1, 0,
+};
+
+static const uint8_t RMAX[64] = {
+  3, 3, 3, 3, 3, 3, 3, 3, 3, 3, 3, 3, 3, 3, 3, 3,
+  3, 3, 3, 3, 3, 3, 3, 3, 3, 3, 3, 3, 3, 3, 3, 3,
+  4, 4, 4, 4, 4, 4, 4, 4, 5, 5, 6, 5, 4, 4, 4, 4,
+  3, 3, 3, 3, 3, 3, 3, 3, 3, 3, 4, 3, 3, 3, 3, 3,
+};
+
 
 #define DECLARE unsigned w; uint64_t v; const uint32_t *next, *limit,   \
                                           *tt_limit; uint32_t *tt
@@ -581,10 +617,10 @@ retrieve(struct decoder_state *restrict ds, struct bitstream *bs)
       while (rs->j < rs->alpha_size) {
         unsigned k = PEEK(6u);
 
-        rs->code_len[rs->j] += R[k];
-        if (unlikely(rs->code_len[rs->j] < 3 + MIN_CODE_LENGTH ||
-                     rs->code_len[rs->j] > 3 + MAX_CODE_LENGTH))
+        if (unlikely(rs->code_len[rs->j] + RMIN[k] < 3 + MIN_CODE_LENGTH ||
+                     rs->code_len[rs->j] + RMAX[k] > 3 + MAX_CODE_LENGTH))
           return ERR_DELTA;
+        rs->code_len[rs->j] += R[k];
         rs->code_len[rs->j] -= 3;
         k = L[k];
         if (k != 6u) {
